@@ -8,12 +8,20 @@
 //! group members and group values) and validated by TLC (spec/air/TraceBoundary.tla).
 use serde_json::{json, Value};
 use wfcommon::util::{catch, read_ndjson, usizes_of, Out};
-use winter_air::{Assertion, BoundaryConstraintGroup, BoundaryConstraints};
-use winter_math::{ExtensionOf, FieldElement, StarkField};
+use winter_air::{
+    Air, Assertion, AuxRandElements, BoundaryConstraintGroup, BoundaryConstraints,
+    ConstraintCompositionCoefficients, PartitionOptions,
+};
+use winter_crypto::{hashers::Blake3_256, MerkleTree};
+use winter_math::{ExtensibleField, ExtensionOf, FieldElement, StarkField};
+use winter_prover::{
+    matrix::ColMatrix, ConstraintEvaluator, DefaultConstraintEvaluator, DefaultTraceLde, StarkDomain,
+    TraceLde,
+};
 
 use crate::{
     elem::{json_of, usize_of, vec_of, Elem},
-    toyair::{context, Deg},
+    toyair::{context, AuxAssertion, Deg, ToyAir},
     with_field,
 };
 
@@ -193,9 +201,58 @@ where
     (assign, out_groups, complete)
 }
 
+/// The prover's side (prover/src/constraints/evaluator): DefaultConstraintEvaluator over the scenario's
+/// trace with an Air whose transition constraints are identically zero, so that the composition trace
+/// is the sum of the boundary groups: value at ce step i = SUM_a cc_a (T_col(x_i) - b_a(x_i)) / Z_a(x_i).
+/// Returns the values at the scenario's coset steps.
+fn composition<B, E>(sc: &Value, cc: &[E]) -> Vec<E>
+where
+    B: StarkField + Elem + ExtensibleField<2> + ExtensibleField<3>,
+    E: FieldElement<BaseField = B> + Elem,
+{
+    let len = usize_of(&sc["L"]);
+    let (mw, aw) = (usize_of(&sc["mw"]), usize_of(&sc["aw"]));
+    let mrows = sc["main"].as_array().unwrap();
+    let arows = sc["aux"].as_array().unwrap();
+    let one = [Deg { base: 1, cycles: vec![] }];
+    let ctx = context::<B>(len, mw, aw, &one, if aw > 0 { &one } else { &[] }, mrows.len(), arows.len(), 2);
+    let main: Vec<Assertion<B>> = mrows.iter().map(mk::<B>).collect();
+    let aux: Vec<AuxAssertion<B>> = arows
+        .iter()
+        .map(|r| {
+            let vals: Vec<E> = vec_of(&r["a"]["vals"]);
+            AuxAssertion {
+                kind: r["a"]["k"].as_str().unwrap().to_string(),
+                col: usize_of(&r["a"]["col"]),
+                first: usize_of(&r["a"]["first"]),
+                stride: usize_of(&r["a"]["stride"]),
+                coords: E::slice_as_base_elements(&vals).to_vec(),
+            }
+        })
+        .collect();
+    let air = ToyAir::with_assertions(ctx, main, aux);
+    let domain = StarkDomain::new(&air);
+    let mtrace: Vec<Vec<B>> = sc["mtrace"].as_array().unwrap().iter().map(|c| vec_of::<B>(c)).collect();
+    type H<B> = Blake3_256<B>;
+    let (mut lde, _polys) = DefaultTraceLde::<E, H<B>, MerkleTree<H<B>>>::new(
+        air.trace_info(), &ColMatrix::new(mtrace), &domain, PartitionOptions::new(1, 1));
+    let rands = if aw > 0 {
+        let atrace: Vec<Vec<E>> = sc["atrace"].as_array().unwrap().iter().map(|c| vec_of::<E>(c)).collect();
+        lde.set_aux_trace(&ColMatrix::new(atrace), &domain);
+        Some(AuxRandElements::new(vec![E::ONE]))
+    } else {
+        None
+    };
+    let ntrans = air.context().num_transition_constraints();
+    let coefficients = ConstraintCompositionCoefficients { transition: vec![E::ONE; ntrans], boundary: cc.to_vec() };
+    let evaluator = DefaultConstraintEvaluator::new(&air, rands, coefficients);
+    let trace = evaluator.evaluate(&lde, &domain).into_inner();
+    usizes_of(&sc["cidx"]).iter().map(|&i| trace[i]).collect()
+}
+
 fn run<B, E>(sc: &Value, rep: &mut Rep) -> Value
 where
-    B: StarkField + Elem,
+    B: StarkField + Elem + ExtensibleField<2> + ExtensibleField<3>,
     E: FieldElement<BaseField = B> + Elem,
 {
     let p = usize_of(&sc["P"]);
@@ -259,7 +316,20 @@ where
             }
         }
     }
-    json!({"complete": complete, "assign": assigns, "groups": groups})
+    // the prover's evaluator (its degree validation of the all-zero transition constraints is a
+    // debug assertion: release builds only)
+    let mut comp = json!([]);
+    if !cfg!(debug_assertions) && complete {
+        rep.calls += 1;
+        match catch(|| composition::<B, E>(sc, &cc)) {
+            Ok(v) => comp = json_of(&v),
+            Err(e) => {
+                complete = false;
+                rep.bad("DefaultConstraintEvaluator::evaluate", "panicked on a valid assertion set", json!({"panic": e}))
+            },
+        }
+    }
+    json!({"complete": complete, "assign": assigns, "groups": groups, "comp": comp})
 }
 
 pub fn main(args: &[String]) -> i32 {
